@@ -553,6 +553,88 @@ pub fn run(ctx: &Ctx) -> i32 {
         }
         let _ = std::fs::remove_dir_all(&base);
     });
+    // ---- working directories in which the report cannot be written: whatever the run then does (fail, most likely),
+    // the analysed tree and everything else around it stay as they were - the report has no other place to go
+    let n_unw = ctx.tier.pick(8u64, 80u64);
+    run_workload(ctx, &mut acc, "report-cannot-be-written", n_unw, |k, rng, acc| {
+        let base = scratch_dir("c18unw");
+        let tree = format!("{}/proj/contracts", base);
+        std::fs::create_dir_all(&tree).unwrap();
+        let ents = gen_tree_eligible(rng, &pool, 2, 3, 1);
+        build(&tree, &ents);
+        let cwd = format!("{}/work", base);
+        std::fs::create_dir_all(&cwd).unwrap();
+        let rep = format!("{}/solstat_report.md", cwd);
+        let variant = match k % 5 {
+            0 => {
+                let _ = std::os::unix::fs::symlink("gone/away/report.md", &rep);
+                "dangling-link-to-a-missing-directory"
+            }
+            1 => "working-directory-removed",
+            2 => {
+                std::fs::create_dir_all(format!("{}/keep", rep)).unwrap();
+                std::fs::write(format!("{}/keep/old.md", rep), b"old\n").unwrap();
+                "report-name-is-a-directory"
+            }
+            3 => {
+                let _ = std::os::unix::fs::symlink("solstat_report.md", &rep);
+                "report-name-is-a-link-to-itself"
+            }
+            _ => {
+                let _ = std::os::unix::fs::symlink(format!("{}/proj/contracts/missing/dir/r.md", base), &rep);
+                "dangling-link-into-the-tree"
+            }
+        };
+        let mut before = Snap::new();
+        snapshot(&base, "", &mut before);
+        let out = if k % 5 == 1 {
+            std::process::Command::new("sh")
+                .arg("-c")
+                .arg("cd \"$1\" && rmdir \"$1\" && bin=\"$0\" && shift && exec \"$bin\" \"$@\"")
+                .arg(solstat_bin())
+                .arg(&cwd)
+                .args(["--path", &tree])
+                .stdin(std::process::Stdio::null())
+                .output()
+        } else {
+            std::process::Command::new(solstat_bin()).args(["--path", &tree]).current_dir(&cwd).stdin(std::process::Stdio::null()).output()
+        };
+        acc.eval();
+        acc.cov(&format!("report-cannot-be-written:{}", variant));
+        acc.nontrivial_h(hash_str(&format!("unw{}:{}", k, variant)));
+        match out {
+            Ok(o) => {
+                acc.cov(&format!("report-cannot-be-written:exit={}", o.status.code().map(|c| c.to_string()).unwrap_or_else(|| "signal".into())));
+                let mut after = Snap::new();
+                snapshot(&base, "", &mut after);
+                if k % 5 == 1 {
+                    before.remove("work");
+                }
+                let mut diff: Vec<String> = vec![];
+                for (p, v) in &before {
+                    match after.get(p) {
+                        None => diff.push(format!("removed:{}", p)),
+                        Some(w) if w != v => diff.push(format!("changed:{}", p)),
+                        _ => {}
+                    }
+                }
+                for p in after.keys() {
+                    if !before.contains_key(p) {
+                        diff.push(format!("created:{}", p));
+                    }
+                }
+                if !diff.is_empty() {
+                    diff.truncate(8);
+                    acc.violation(
+                        &format!("effects-besides-the-report:{}", variant),
+                        json!({"working_directory": variant, "exit_code": o.status.code(), "differences_below_the_base": diff, "stderr": trunc(&String::from_utf8_lossy(&o.stderr), 200), "tree": to_json(&ents)}),
+                    );
+                }
+            }
+            Err(e) => acc.inconclusive(format!("cannot run the binary: {}", e)),
+        }
+        let _ = std::fs::remove_dir_all(&base);
+    });
     if ctx.replay.is_none() {
         for c in ["cwd:outside-tree", "cwd:tree-root", "cwd:subdir-of-tree", "cwd:parent(default ./contracts)", "previous-report:larger-than-new", "previous-report:from-previous-run"] {
             if acc.cov_get(c) < 5 {
